@@ -700,3 +700,19 @@ pub const ARK2: [[BaseElement; STATE_WIDTH]; NUM_ROUNDS] = [
         BaseElement::new(2929967273325723272),
     ],
 ];
+
+// VERIFICATION HOOKS
+// ================================================================================================
+
+/// Read-only access to the otherwise private permutation and MDS matrix for external runtime
+/// monitors; compiled only with `--cfg winterfell_verif`.
+#[cfg(winterfell_verif)]
+impl Rp62_248 {
+    pub const VERIF_MDS: [[BaseElement; STATE_WIDTH]; STATE_WIDTH] = MDS;
+    pub const VERIF_ARK1: [[BaseElement; STATE_WIDTH]; NUM_ROUNDS] = ARK1;
+    pub const VERIF_ARK2: [[BaseElement; STATE_WIDTH]; NUM_ROUNDS] = ARK2;
+
+    pub fn verif_apply_permutation(state: &mut [BaseElement; STATE_WIDTH]) {
+        apply_permutation(state)
+    }
+}
